@@ -1615,6 +1615,11 @@ class AlterOwned(
                 bases,
                 ignore_local=True,
             )
+            if context.enable_recursion:
+                # The reverted values must reach the descendants
+                # that inherit them from this object.
+                self._propagate_field_alter(
+                    schema, context, scls, tuple(scls.inheritable_fields()))
 
             for refdict in type(scls).get_refdicts():
                 schema = self._drop_owned_refs(schema, context, refdict)
